@@ -34,6 +34,11 @@ CLAIMED = {
   note="Trusted: gowp, go/ssa, solvers. Assumed inductive hypothesis (listed in evidence): code reached through function values (native/host functions, interrupt handlers) and cmplCallNodeFunction preserve runtime.scope and scope.outer. One known finding: try/catch catches host panics (pinned by an existing test).",
   technique="contract-based deductive verification: unwind_ensures/preserves obligations on exceptional edges with inlined defers, ghost events for polling; VCs over go/ssa discharged by z3/cvc5",
   ref="6 C18"),
+ "C19": dict(
+  text="Proof that every exception constructor builds the error of the class it is named after (TypeError, RangeError, ReferenceError, SyntaxError, URIError); that newError lists the innermost frame first, follows the callers in order, and returns at most traceLimit entries for every stack depth and limit; that file positions are nil exactly outside the source and otherwise have line >= 1 and 1 <= column <= offset+1; that error positions produced by the lexer lie inside the input; that the call-site offset of a call/new expression is recorded after the arguments are evaluated and equals the callee expression's index; and that in/instanceof raise instead of returning for non-object right operands. Message wording and the Error object graph are not covered.",
+  note="Trusted: gowp, go/ssa, solvers; strings.Count/LastIndex per documentation; ottoError.describe (fmt) trusted; compiled node trees immutable (proved syntactically as a frame obligation).",
+  technique="contract-based deductive verification: loop invariants for the trace limit, at_call state assertions, postconditions over go/ssa VCs discharged by z3/cvc5",
+  ref="6 C19"),
 }
 
 NA = {
